@@ -7,7 +7,7 @@
 From Coq Require Import String Ascii NArith List Bool.
 From RlibV Require Import Common.Iter.
 Import ListNotations.
-Open Scope N_scope.
+Local Open Scope N_scope.
 
 Definition bitset := list N.
 
